@@ -24,12 +24,13 @@ import vlib
 
 MAP_FIELDS = {"labels", "sel"}
 FLAGS = ("W_NoSyncGate = FALSE  W_SubMin = FALSE  W_SubDominating = FALSE  W_StartupBlocks = FALSE  W_CountMarked = FALSE  W_ZeroSkips = FALSE  "
-         "W_NoZeroFallback = FALSE  W_DaemonTwice = FALSE  C_NodesPerPass = FALSE  C_OverrideBase = FALSE")
+         "W_NoZeroFallback = FALSE  W_DaemonTwice = FALSE  W_SyncBeforeBatch = FALSE  C_NodesPerPass = FALSE  C_OverrideBase = FALSE")
 INVS = ("TypeOK Inv_C04_NoNeedlessOpen Inv_C04_Idempotent Inv_C04_InflightFits Inv_C04_MarkedNotCapacity Inv_C04_PassOnlyWhenSynced "
         "Inv_C03_PoolCapacity Inv_C03_OpenWithinLimits")
 # spec mutations / pinned-tree semantics TLC must reject: cfg -> set of acceptable violated invariants
 WEAK = {
     "MultiPass_WeakNoSyncGate.cfg": {"Cex_C04_PassOnlyWhenSynced", "Cex_C04_Idempotent", "Cex_C04_NoNeedlessOpen"},
+    "MultiPass_WeakSyncBeforeBatch.cfg": {"Cex_C04_PassOnlyWhenSynced", "Cex_C04_Idempotent", "Cex_C04_NoNeedlessOpen"},
     "MultiPass_WeakSubMin.cfg": {"Cex_C03_OpenWithinLimits", "Cex_C03_PoolCapacity"},
     "MultiPass_WeakSubDominating.cfg": {"Cex_C03_OpenWithinLimits", "Cex_C03_PoolCapacity"},
     "MultiPass_WeakStartupBlocks.cfg": {"Cex_C04_NoNeedlessOpen", "Cex_C04_Idempotent"},
@@ -45,13 +46,13 @@ WEAK = {
 # (focus scope, depth); sim: simulated behaviours (full scope)
 FULL = "Catalogs = {1, 2, 3}  Limits = {0, 1, 2, 3, 4, 5}  Daemons = {0, 1}  Batches = {1, 2, 3, 4, 5, 6, 7}  Laters = {0, 1, 2, 3}"
 SCOPE = {
-    ("C04", "quick"): dict(mc="Catalogs = {1, 2}  Limits = {0, 2}  Daemons = {1}  Batches = {2, 5, 7}  Laters = {0, 2}", mc_steps=7,
+    ("C04", "quick"): dict(mc="Catalogs = {1, 2}  Limits = {0}  Daemons = {1}  Batches = {2, 7}  Laters = {0, 2}", mc_steps=7,
                            enum="Catalogs = {1}  Limits = {0}  Daemons = {1}  Batches = {2, 7}  Laters = {1}", enum_steps=4, enum_keep=300,
                            sim=500, sim_steps=14, explore=200),
     ("C04", "thorough"): dict(mc="Catalogs = {1, 2, 3}  Limits = {0, 2, 4}  Daemons = {0, 1}  Batches = {1, 2, 3, 5, 7}  Laters = {0, 1, 2}", mc_steps=8,
                               enum="Catalogs = {1, 2}  Limits = {0, 2}  Daemons = {1}  Batches = {2, 7}  Laters = {1}", enum_steps=5, enum_keep=4000,
                               sim=5000, sim_steps=16, explore=4000),
-    ("C03", "quick"): dict(mc="Catalogs = {1, 3}  Limits = {1, 2, 4, 5}  Daemons = {1}  Batches = {2, 4, 6}  Laters = {0, 2}", mc_steps=6,
+    ("C03", "quick"): dict(mc="Catalogs = {1, 3}  Limits = {2, 4, 5}  Daemons = {1}  Batches = {2, 6}  Laters = {0, 2}", mc_steps=6,
                            enum="Catalogs = {1}  Limits = {2, 3}  Daemons = {1}  Batches = {2}  Laters = {3}", enum_steps=4, enum_keep=150,
                            sim=300, sim_steps=12, explore=200, sim_scope="Catalogs = {1, 2, 3}  Limits = {1, 2, 3, 4, 5}  Daemons = {0, 1}  Batches = {1, 2, 3, 4, 5, 6, 7}  Laters = {0, 1, 2, 3}"),
     ("C03", "thorough"): dict(mc="Catalogs = {1, 2, 3}  Limits = {1, 2, 3, 4, 5}  Daemons = {1}  Batches = {1, 2, 4, 6}  Laters = {0, 2, 3}", mc_steps=7,
@@ -71,8 +72,8 @@ def fix_maps(x, key=None):
     return x
 
 
-ALL_FORMS = "EphForms = {1, 2, 3, 4, 5, 6, 7}  StForms = {0, 1, 2}"
-ONE_FORM = "EphForms = {2}  StForms = {2}"      # closed-model runs: the forms only show in the history (hidden by the VIEW)
+ALL_FORMS = "Resyncs = {FALSE, TRUE}  EphForms = {1, 2, 3, 4, 5, 6, 7}  StForms = {0, 1, 2}"
+ONE_FORM = "Resyncs = {FALSE}  EphForms = {2}  StForms = {2}"      # closed-model runs: the forms only show in the history (hidden by the VIEW)
 
 
 def write_cfg(run, name, scope, steps, spec_lines, forms=ONE_FORM):
@@ -111,7 +112,7 @@ def closed_models(run, prop):
         write_cfg(run, "MultiPass_MC_run.cfg", sc["mc"], sc["mc_steps"], "SPECIFICATION Spec\nVIEW view\nINVARIANTS " + INVS)
         jobs.append(("mc", lambda: run.closed_model("MultiPass", "MultiPass_MC_run.cfg", workers=4 if dev else 8, heap="4g" if dev else "8g",
                                                     timeout=3000)))
-        write_cfg(run, "MultiPass_Cov_run.cfg", "Catalogs = {1}  Limits = {2}  Daemons = {1}  Batches = {2}  Laters = {1}", 7,
+        write_cfg(run, "MultiPass_Cov_run.cfg", "Catalogs = {1}  Limits = {2}  Daemons = {1}  Batches = {2}  Laters = {1}", 6,
                   "SPECIFICATION Spec\nVIEW view\nINVARIANTS " + INVS)
         jobs.append(("cov", lambda: run.tlc("MultiPass", "MultiPass_Cov_run.cfg", workers=2, coverage=True, timeout=1500, heap="3g")))
     for cfg in WEAK:
@@ -156,14 +157,14 @@ def complete(b):
     blank = dict(BLANK)
     pol = ("maxcpu", "maxmem", "first")[sum(len(s["a"]) for s in steps) % 3]
     steps.append(dict(blank, a="LaunchRest", type=pol))
-    steps.append(dict(blank, a="Pass", deliver=True))
+    steps.append(dict(blank, a="Pass", deliver=True, resync=len(steps) % 2 == 0))
     return dict(b, steps=steps)
 
 
 def generate(run, prop, rng):
     sc = SCOPE[(prop, run.tier)]
     dev = os.environ.get("VERIF_DEV")
-    write_cfg(run, "MultiPass_Enum_run.cfg", sc["enum"], sc["enum_steps"], "SPECIFICATION Spec\nINVARIANTS GenPrint", forms="EphForms = {2, 5}  StForms = {0, 2}")
+    write_cfg(run, "MultiPass_Enum_run.cfg", sc["enum"], sc["enum_steps"], "SPECIFICATION Spec\nINVARIANTS GenPrint", forms="Resyncs = {FALSE, TRUE}  EphForms = {2, 5}  StForms = {0, 2}")
     write_cfg(run, "MultiPass_Sim_run.cfg", sc.get("sim_scope", FULL), sc["sim_steps"], "SPECIFICATION Spec\nINVARIANTS GenPrint", forms=ALL_FORMS)
     with cf.ThreadPoolExecutor(max_workers=2) as ex:
         fe = ex.submit(lambda: run.generate("MultiPass", "MultiPass_Enum_run.cfg", workers=2 if dev else 4, timeout=2400, heap="4g"))
@@ -199,7 +200,7 @@ DEDICATED = {"key": "dedicated", "value": "infra", "effect": "NoSchedule"}
 STARTUP = {"key": "startup.example/agent", "value": "", "effect": "NoSchedule"}
 TOL_DED = {"key": "dedicated", "op": "Equal", "value": "infra", "effect": "NoSchedule"}
 TOL_ALL = {"key": "", "op": "Exists", "value": "", "effect": ""}
-BLANK = {"c": "-", "deliver": False, "type": "-", "off": 0, "labels": False, "zero": False, "eph": False, "ephv": 0, "stv": 0, "pod": "-"}
+BLANK = {"c": "-", "deliver": False, "type": "-", "off": 0, "labels": False, "zero": False, "eph": False, "ephv": 0, "stv": 0, "resync": False, "pod": "-"}
 
 
 def _pod(name, cpu, mem, created):
@@ -262,8 +263,10 @@ def explore(rng, name):
     later = [mkpod(n0 + j + 1) for j in range(n1)]
     steps, arrived = [], 0
     stage = {}          # explorer's guess of each NodeClaim's stage (the driver skips what does not apply)
+    names = [p["name"] for p in pods + later]
     for rnd in range(rng.choice([2, 3, 3, 4])):
-        steps.append(dict(BLANK, a="Pass", deliver=True))
+        # (another controller stores a NodeClaim for some pod inside the batching window of about every sixth pass)
+        steps.append(dict(BLANK, a="Pass", deliver=True, resync=rng.random() < 0.5, pod=rng.choice(names) if rng.random() < 0.17 else "-"))
         r = rng.random()
         if r < 0.3:
             steps.append(dict(BLANK, a="Pass", deliver=False))
@@ -292,7 +295,7 @@ def explore(rng, name):
                 st = min(st + 1, 5)
                 r = rng.random()
                 if r < 0.15:
-                    steps.append(dict(BLANK, a="Pass", deliver=True))
+                    steps.append(dict(BLANK, a="Pass", deliver=True, resync=rng.random() < 0.5))
                 elif r < 0.22:      # Karpenter restarts at this point of the NodeClaim's life; a pass is the first thing the new process does
                     steps.append(dict(BLANK, a="Restart"))
                     steps.append(dict(BLANK, a="Pass", deliver=rng.random() < 0.8))
@@ -346,6 +349,33 @@ def systematic():
                 steps = [P()] + pre + ([P()] if mid else []) + [dict(BLANK, a="Restart"), P(first)] + ([] if first else [P()])
                 out.append({"name": "sys-restart-%s%s-%s" % (stage, "-mid" if mid else "", "hydrated" if first else "cold"), "scenario": scn,
                             "later": [], "steps": steps})
+    # (c) the LAST state event of the node comes from the NodeClaim informer (condition write / resync) after its daemonset pod
+    #     started, and the waiting pod fits only if the running daemon's overhead is not reserved a second time
+    def scn2(cpus):
+        x = json.loads(json.dumps(scn))
+        x["pods"] = [_pod("w%d" % (i + 1), c, m, i + 1) for i, (c, m) in enumerate(cpus)]
+        return x
+    for tag, pods_, ty, both in (("B-tight", [(1700, 3000), (1700, 3000)], "B", False), ("A-exact", [(1900, 1024), (1900, 1024)], "A", True)):
+        for stage in ("registered", "initialized"):
+            for resync in (True, False):
+                steps = [P(), dict(BLANK, a="Launch", c=c, type=ty, off=0)]
+                if not both:
+                    steps.append(dict(BLANK, a="Launch", c="default/w2", type="B", off=0))
+                steps += [dict(BLANK, a="Appear", c=c, labels=True), dict(BLANK, a="Register", c=c)]
+                if stage == "initialized":
+                    steps.append(dict(BLANK, a="Init", c=c))
+                steps += [dict(BLANK, a="Daemon", c=c), dict(P(), resync=resync)]
+                if stage == "initialized":       # ... and again once the pods are bound next to the daemon and one more pod arrives
+                    steps += [dict(BLANK, a="Bind", c=c), dict(P(), resync=resync)]
+                out.append({"name": "sys-daemon-%s-%s-%s" % (tag, stage, "resync" if resync else "podlast"), "scenario": scn2(pods_), "later": [],
+                            "steps": steps})
+    # (d) another controller stores a NodeClaim for the pending pod inside the batching window of the pass - at the start and
+    #     while an earlier NodeClaim is at each stage of its life
+    for stage, pre in life[1:]:
+        x = scn2([(1500, 1024), (1500, 1024)])
+        out.append({"name": "sys-foreign-" + stage, "scenario": x, "later": [_pod("w3", 3100, 2048, 3)],
+                    "steps": [P()] + pre + [P(), dict(BLANK, a="AddPod", pod="w3"), dict(P(), pod="w3")]})
+    out.append({"name": "sys-foreign-first", "scenario": scn, "later": [], "steps": [dict(P(), pod="w1")]})
     return out
 
 
@@ -424,7 +454,7 @@ def pipeline(run, prop):
     run.extra_cov.update({
         "behaviours_replayed": len(behs), "counterexample_behaviours": len(cex), "passes": sum(s.get("passes", 0) for s in sums),
         "passes_that_ran": sum(s.get("passesRan", 0) for s in sums), "nodeclaims_created": sum(s.get("created", 0) for s in sums),
-        "launches": sum(s.get("launches", 0) for s in sums), "opens": sum(s.get("opens", 0) for s in sums),
+        "launches": sum(s.get("launches", 0) for s in sums), "nodeclaims_stored_by_another_controller_inside_a_batching_window": sum(s.get("foreignCreated", 0) for s in sums), "opens": sum(s.get("opens", 0) for s in sums),
         "explorer_behaviours": len(expl), "systematic_behaviours": len(systematic()), "tlc_driver_steps": steps, "tlc_driver_steps_skipped": skips})
     if steps and skips > steps * 0.25:
         raise vlib.InfraError("the real code diverged from the model's prediction in %d of %d steps (model and code must be reconciled)" % (skips, steps))
